@@ -285,6 +285,17 @@ func init() {
 				k := k
 				w.Phase(fmt.Sprintf("inline-body<=%d", k), func() {
 					Seqs(alpha, k, func(body []string) {
+						dupGlob := false
+						for i := range body {
+							for j := 0; j < i; j++ {
+								if body[i] == body[j] && f14Index[body[i]].Glob != "" {
+									dupGlob = true // a glob statement repeated verbatim runs into a recorded C12 defect on the import side
+								}
+							}
+						}
+						if dupGlob {
+							return
+						}
 						for _, imp := range imps {
 							hasDirOnly, hasP1 := false, false
 							for _, l := range body {
